@@ -1,7 +1,8 @@
 """C01 — parse -> print -> parse is a fixpoint for every accepted statement.
 
 Two populations, reported separately in the evidence file:
-  in_model       the operator core, proved in Coq and tied to the implementation (lib/props/c01core.py);
+  in_model       the operator core (lib/props/c01core.py) and the query core -- the SELECT / query skeleton
+                 (lib/props/c01query.py) --, proved in Coq and tied to the implementation;
   outside_model  the rest of the grammar: the property itself evaluated on the implementation as search
                  (harness/rtx `roundtrip` / `splice`), every failure mapped to a root-cause key (lib/rtlib.py).
 """
@@ -57,7 +58,27 @@ def check(run):
         else:
             import importlib
             c01core = importlib.import_module("props.c01core")
+            c01query = importlib.import_module("props.c01query")
+            # coq/gen/QueryTables.v is required by coq/Properties/C01.v: regenerate it before the theorems are re-checked
+            qtables = None
+            try:
+                qtables = c01query.gen_query_tables()
+            except BuildFailed:
+                raise
+            except Exception as e:
+                traceback.print_exc()
+                run.violation({"what": "the query-core tables (coq/gen/QueryTables.v) could not be regenerated", "unchecked": "C01 query core (lib/props/c01query.py)",
+                               "tool_output": (str(e) or repr(e))[-3000:]}, no_input=True)
             c01core.check_core(run, PROP)
+            if qtables is not None:
+                try:
+                    c01query.check_query(run, PROP, tables=qtables)
+                except BuildFailed:
+                    raise
+                except Exception as e:
+                    traceback.print_exc()
+                    run.violation({"what": "the query-core (in_model) part of C01 failed to run", "unchecked": "C01 query core (lib/props/c01query.py)",
+                                   "tool_output": (str(e) or repr(e))[-3000:]}, no_input=True)
     except BuildFailed:
         raise
     except Exception as e:
